@@ -27,14 +27,17 @@ open Arc.Generated.C05
 /-! ## ties to the current source (regenerated on every run) -/
 
 /-- The shape of the recovery callbacks / WAL row builders the model and the proofs rely on: the row callback
-looks first at exactly the two keys `columnarToWALRecords` writes, both are among the removed keys, the
+looks first at exactly the two keys `columnarToWALRecords` writes (and writes LAST, so they win over same-named
+columns), both are among the removed keys, every removed key is one the live path does not store either ('_'
+prefix), `parseColumnarEntry` accepts integer measurements, the
 columnar callback and the row callback use the same default database, the threshold table is the 1e10 / 1e13 /
 1e16 ladder, and `os.Remove(walFile)` follows the callbacks (guarded by allEntriesSucceeded) with no flush
 in between. -/
 theorem C05_facts_tied :
     measKeys.head? = some walMeasKey ∧ dbKeys.head? = some walDbKey ∧
     removedKeys.contains walDbKey = true ∧ removedKeys.contains walMeasKey = true ∧
-    colDbDefault = dbDefault ∧
+    colDbDefault = dbDefault ∧ walKeysLast = true ∧ replayAcceptsIntMeas = true ∧
+    removedKeys.all (fun k => !visible k && k != kTime) = true ∧
     thresholds = [(10000000000, 1000000), (10000000000000, 1000), (10000000000000000, 1)] ∧ elseMult = -1000 ∧
     removeAfterCallbacks = true ∧ removeGuardedByAllSucceeded = true ∧ flushBeforeRemove = false := by
   decide
@@ -59,11 +62,12 @@ theorem C05_stable_range (t : Int) :
 /-! ## data part -/
 
 /-- C05_replay_eq_live inside the carve-out `carve`:
-* raw entries (top-level MessagePack columnar): database header present (always, the handlers default it), the
-  measurement was sent as a string, the body carries a time column;
-* row entries (line protocol, MessagePack rows, nested columnar): no column / tag / field named
-  `_measurement, measurement, m, _database, database` (generated list), unique names, equal lengths, every
-  timestamp in the stable range, strings already sanitised.
+* raw entries (top-level MessagePack columnar): database header present (always, the handlers default it) and
+  the body carries a time column (else the generated time differs, C05_generated_time_witness);
+* row entries (line protocol, MessagePack rows, nested columnar): unique names and equal lengths (what a Go
+  map of validated columns gives), every timestamp in the stable range (C05_rescale_witness), strings already
+  sanitised.  No restriction on column NAMES any more: since c684d79 / 25d831b columns called `_database`,
+  `_measurement`, `database`, `measurement`, `m` neither re-route nor disappear.
 Then the rows startup recovery re-buffers for the persisted entry are exactly the rows the live path stored:
 same database, measurement, column names, values, timestamps. -/
 theorem C05_replay_eq_live_partial (san : Str → Str) (nowL nowR : Int) (req : Req) (rows : List Row)
@@ -72,26 +76,33 @@ theorem C05_replay_eq_live_partial (san : Str → Str) (nowL nowR : Int) (req : 
   cases req with
   | raw db m cols =>
     simp only [carve, carveRaw, Bool.and_eq_true] at hc
-    obtain ⟨⟨hdb, hm⟩, ht⟩ := hc
+    obtain ⟨hdb, ht⟩ := hc
+    have hdb' : db ≠ [] := by simpa using hdb
     cases m with
     | str meas =>
-      have hdb' : db ≠ [] := by simpa using hdb
       simp only [liveRows, measOf] at h
-      simp only [walEntry, replayRows, hdb', if_false]
+      simp only [walEntry, replayRows, replayRawG, hdb', if_false]
       rw [ingestCols_now_irrel san nowR nowL db meas cols ht]
       exact h
-    | int n => simp at hm
-    | other => simp at hm
+    | int n =>
+      simp only [liveRows, measOf] at h
+      simp only [walEntry, replayRows, replayRawG, replay_int, hdb', if_false, if_true]
+      rw [ingestCols_now_irrel san nowR nowL db _ cols ht]
+      exact h
+    | other => simp [liveRows, measOf] at h
   | pcol db meas cols =>
     exact rows_replay_eq_live san nowR db meas cols rows hc h
   | rgrp db meas pts =>
     exact rows_replay_eq_live san nowR db meas (rowsToColumnar pts) rows hc h
 
 example : carve id (.pcol [112] [99] [(kTime, [.int 1700000000000000, .int 1700000000000001]),
-    ([118], [.flt 5, .null]), ([104], [.str [97], .str [98]])]) = true ∧
+    ([118], [.flt 5, .null]), ([109], [.str [97], .str [98]]), (walDbKey, [.str [113], .null])]) = true ∧
     (liveRows id 0 (.pcol [112] [99] [(kTime, [.int 1700000000000000, .int 1700000000000001]),
-      ([118], [.flt 5, .null]), ([104], [.str [97], .str [98]])])).toOption.map List.length = some 2 := by
+      ([118], [.flt 5, .null]), ([109], [.str [97], .str [98]]), (walDbKey, [.str [113], .null])])).toOption.map
+        List.length = some 2 := by
   decide
+
+example : carve id (.raw [112] (.int 5) [(kTime, [.int 1700000000]), ([118], [.int 1])]) = true := by decide
 
 def reqDb : Req → Str
   | .raw db _ _ => db
@@ -145,38 +156,32 @@ theorem C05_rescale_pre1970_witness :
       some [{ db := [112], meas := [99], time := -8253000000000000, cells := [([118], .i 1)] }] := by
   decide
 
-/-- (b) a tag / field named `m` (likewise `measurement`, `database`) is stored by the live path and dropped by
-the row callback. -/
-theorem C05_reserved_column_witness :
-    (liveRows id 0 (.pcol [112] [99] [(kTime, [.int 1700000000000000]), ([109], [.str [120]])])).toOption =
-      some [{ db := [112], meas := [99], time := 1700000000000000, cells := [([109], .s [120])] }] ∧
-    (replayRows id 0 (walEntry (.pcol [112] [99] [(kTime, [.int 1700000000000000]), ([109], [.str [120]])]))).toOption =
-      some [{ db := [112], meas := [99], time := 1700000000000000, cells := [] }] := by
+/-! Fixed in /repo (c684d79 routing keys written last, 25d831b callback consumes only those two keys, c631216
+integer measurements replay): the former witnesses are kept only about the explicitly pre-fix definitions
+`mkRecG false` / `replayRawG false`; the main theorem now covers those inputs. -/
+
+/-- pre-c684d79 (`mkRecG false`): a column named `_database` overwrote the routing key and re-routed the row;
+with the keys written last (`mkRecG true`) the request's database wins. -/
+theorem C05_prefix_reroute_witness :
+    (rowCb id 0 (mkRecG false [112] [99] [(kTime, [.int 1700000000000000]), (walDbKey, [.str [113]]),
+        ([118], [.int 1])] 0)).toOption.map (List.map (·.db)) = some [[113]] ∧
+    (rowCb id 0 (mkRecG true [112] [99] [(kTime, [.int 1700000000000000]), (walDbKey, [.str [113]]),
+        ([118], [.int 1])] 0)).toOption.map (List.map (·.db)) = some [[112]] := by
   decide
 
-/-- (b') a column named `_database` re-routes the row to the database named by its value. -/
-theorem C05_reroute_witness :
-    (liveRows id 0 (.pcol [112] [99] [(kTime, [.int 1700000000000000]), (walDbKey, [.str [113]]), ([118], [.int 1])])).toOption.map
-        (List.map (·.db)) = some [[112]] ∧
-    (replayRows id 0 (walEntry (.pcol [112] [99] [(kTime, [.int 1700000000000000]), (walDbKey, [.str [113]]),
-        ([118], [.int 1])]))).toOption.map (List.map (·.db)) = some [[113]] := by
+/-- pre-c684d79: a NULL in a column named `_measurement` made the row callback skip the row. -/
+theorem C05_prefix_null_measurement_column_witness :
+    (rowCb id 0 (mkRecG false [112] [99] [(kTime, [.int 1700000000000000]), (walMeasKey, [.null]),
+        ([118], [.int 1])] 0)).toOption = some [] ∧
+    (rowCb id 0 (mkRecG true [112] [99] [(kTime, [.int 1700000000000000]), (walMeasKey, [.null]),
+        ([118], [.int 1])] 0)).toOption.map List.length = some 1 := by
   decide
 
-/-- (b'') a NULL in a column named `_measurement` makes the row callback skip the row: it is lost. -/
-theorem C05_null_measurement_column_witness :
-    (liveRows id 0 (.pcol [112] [99] [(kTime, [.int 1700000000000000]), (walMeasKey, [.null]), ([118], [.int 1])])).toOption.map
-        List.length = some 1 ∧
-    (replayRows id 0 (walEntry (.pcol [112] [99] [(kTime, [.int 1700000000000000]), (walMeasKey, [.null]),
-        ([118], [.int 1])]))).toOption = some [] := by
-  decide
-
-/-- (e) a top-level columnar request whose measurement was sent as an integer is accepted and stored as
-`measurement_<n>`, but `parseColumnarEntry` requires a string: the raw entry is dropped on replay. -/
-theorem C05_int_measurement_witness :
-    (liveRows id 0 (.raw [112] (.int 5) [(kTime, [.int 1700000000000000]), ([118], [.int 1])])).toOption.map
-        List.length = some 1 ∧
-    (replayRows id 0 (walEntry (.raw [112] (.int 5) [(kTime, [.int 1700000000000000]), ([118], [.int 1])]))).toOption =
-      some [] := by
+/-- pre-c631216 (`replayRawG false`): a raw entry whose measurement was sent as an integer was dropped. -/
+theorem C05_prefix_int_measurement_witness :
+    (replayRawG false id 0 [112] (.int 5) [(kTime, [.int 1700000000000000]), ([118], [.int 1])]).toOption = some [] ∧
+    (replayRawG true id 0 [112] (.int 5) [(kTime, [.int 1700000000000000]), ([118], [.int 1])]).toOption.map
+        List.length = some 1 := by
   decide
 
 /-- (g) a raw entry without a time column gets a NEW generated timestamp at replay time. -/
@@ -241,7 +246,8 @@ theorem C05_full_dup_witness :
       (fun st => (quiescent st, st.rows.map fun r => (r.pers, r.s + r.sr))) = some (true, [(true, 2)]) := by
   decide
 
-/-- a WAL entry the reader cannot parse (witness (e)) is skipped, its file deleted: the row is lost. -/
+/-- a WAL entry the reader cannot parse is skipped, its file deleted: the row is lost (no such entry is produced
+by the current source for accepted requests; the carve-out keeps `skip` out). -/
 theorem C05_full_skip_witness :
     (run removeAfterCallbacks flushBeforeRemove {}
         [.ack 0 [1], .persist 0, .crash, .restart, .skip 0, .delete 0]).map
